@@ -80,7 +80,8 @@ def make_case(index, rng, tier):
             scripts[str(age)] = {"term_delay": round(rng.uniform(0.1, 1.0), 2)}
     boot_fail = None
     if rng.randrange(12) == 0:
-        boot_fail = {"age": rng.randrange(1, 8), "code": rng.choice([3, 4]), "via": rng.choice(["load", "load", "post_init"])}
+        boot_fail = {"age": rng.randrange(1, 8), "code": rng.choice([3, 4]), "via": rng.choice(["load", "load", "post_init"]),
+                     "sync": rng.randrange(3) == 0}
         if rng.randrange(2) == 0:
             # the application cannot be loaded at all: EVERY worker fails, after an import that takes a moment, one after the other -
             # also while the master is already shutting down because of the first
@@ -116,6 +117,8 @@ def run(case, choices):
     if bf:
         bkind = "post_init3" if bf.get("via") == "post_init" and bf["code"] == 3 else "exit%d" % bf["code"]
         scripts[bf["age"]] = {"boot": bkind}
+        if bf.get("sync") and bkind != "post_init3":
+            scripts[bf["age"]]["boot_at_next_fork"] = True
         if bf.get("all"):
             for a_ in range(1, 16):
                 scripts[a_] = {"boot": bkind, "boot_delay": round(bf["delay"] + bf["stagger"] * (a_ - 1), 2)}
@@ -244,7 +247,8 @@ def run(case, choices):
             w.faults_end = state["last_event"]
         if w.faults_end + settle > horizon["t"]:
             horizon["t"] = w.faults_end + settle
-        return sim.now >= horizon["t"] or m.state != "running"
+        # (one more second after the master has gone: workers it never told to stop are still there then)
+        return sim.now >= horizon["t"] or (m.state != "running" and sim.now >= getattr(m, "exit_time", sim.now) + 1.0)
     try:
         why = sim.run(until=until)
         a = arb()
@@ -257,9 +261,13 @@ def run(case, choices):
         for name, tb in sim.escaped:
             if name == "master":
                 res.violate("C03:master-crashed", "an exception escaped the master's main loop: %s; %s" % (tb[-400:], ctx()))
-        if state["boot_exit"] is None and w.boot_failures and m.state == "running":
+        # (a failing worker that was also sent a signal - by the history or by the master retiring it - may legitimately leave through that
+        #  signal's handler with another status)
+        unsignalled = [b for b in w.boot_failures if sim.procs.get(b[0]) is not None and not sim.procs[b[0]].sig_received
+                       and sim.procs[b[0]].state != "running" and (sim.procs[b[0]].status or 0) & 0x7F == 0]
+        if state["boot_exit"] is None and unsignalled and m.state == "running":
             # the exit status is what tells the master: a worker that failed during its boot but left with another status is respawned for ever
-            pid_, code_, at_ = w.boot_failures[0]
+            pid_, code_, at_ = unsignalled[0]
             pr_ = sim.procs.get(pid_)
             res.violate("C03:boot-failure-not-fatal:%d" % code_,
                         "worker %d failed while booting at t=%.2f (it owes exit status %d, it left with wait-status %r) and the master is still "
